@@ -739,16 +739,31 @@ def job_scale(j):
     col = Collector()
     pid = j.get("pid", "C09")
     for k in range(j.get("n_cases", 3)):
-        kind = rng.choice(["chain", "fan", "grid", "binary"])
+        kind = rng.choice(["chain", "fan", "grid", "binary", "roots", "chain_beside_sequential", "fan_below_sequential"])
         n = rng.randint(j.get("nmin", 200), j.get("nmax", 600))
         if k == 0:
             kind, n = "chain", rng.randint(520, 700)  # deeper than half of Python's default recursion limit
+        if k == 1 and j.get("deep"):
+            kind, n = "chain", rng.randint(1100, 1500)  # deeper than Python's default recursion limit
         fns = {"g%d" % q: dict(priority=rng.choice([0, 1, 2]), is_sequential=False, resource=rng.choice(["thread", "thread", "async-thread", "main-thread"]))
                for q in range(4)}
+        if kind in ("chain_beside_sequential", "fan_below_sequential"):
+            # one SEQUENTIAL function (call site 0) next to / above many others: it overlaps none of them, however often the scheduler
+            # has to put it back, however wide the level is
+            fns["gseq"] = dict(priority=(1 if kind == "chain_beside_sequential" else 10 ** 6), is_sequential=True, resource=rng.choice(["thread", "async-thread"]))
+            for q in range(4):
+                fns["g%d" % q]["priority"] = rng.choice([5, 6, 7])
+                fns["g%d" % q]["resource"] = rng.choice(["thread", "async-thread"])
         nodes = []
         for i in range(n):
             if kind == "chain":
                 deps = [i - 1] if i else []
+            elif kind == "roots":
+                deps = []  # one level of n independent nodes: hundreds of nodes ready at once
+            elif kind == "chain_beside_sequential":
+                deps = [i - 1] if i > 1 else []  # site 0 = the sequential root, sites 1.. = a chain of their own
+            elif kind == "fan_below_sequential":
+                deps = []  # site 0 = the sequential node (highest priority), all others independent roots of one wide level
             elif kind == "fan":
                 deps = [0] if i else []
             elif kind == "grid":
@@ -758,10 +773,11 @@ def job_scale(j):
                     deps.append(i - w - 1)
             else:
                 deps = [(i - 1) // 2] if i else []
-            nodes.append({"fn": "g%d" % rng.randrange(4), "args": [["n", q, []] for q in deps] + ([["p", "x"]] if not deps else []), "kwargs": {}, "active": None})
+            fn_i = "gseq" if (i == 0 and "gseq" in fns) else "g%d" % rng.randrange(4)
+            nodes.append({"fn": fn_i, "args": [["n", q, []] for q in deps] + ([["p", "x"]] if not deps else []), "kwargs": {}, "active": None})
         sinks = set(range(n)) - {a[1] for nd in nodes for a in nd["args"] if a[0] == "n"}
         sp = {"name": "big", "params": ["x"], "defaults": {}, "fns": fns, "nodes": nodes,
-              "ret": ["tuple", [["n", i, []] for i in sorted(sinks)[:50]]], "mc": rng.randint(1, 8), "is_async": rng.random() < 0.3}
+              "ret": ["tuple", [["n", i, []] for i in sorted(sinks)[:50]]], "mc": rng.randint(2 if "gseq" in fns else 1, 8), "is_async": rng.random() < 0.3}
         rp = {"kind": "rerun_job", "job": dict(j, n_cases=k + 1), "shape": kind, "nodes": n, "mc": sp["mc"], "is_async": sp["is_async"]}
         col.evaluations += 1
         try:
@@ -805,6 +821,23 @@ def job_scale(j):
 
             if not same(ref[1].result, res[1]):
                 col.violation(pid, "large_dag_returned_wrong_value", dict(shape=kind, nodes=n, got=short(res[1], 200)), rp)
+        if kind == "chain" and n >= 500:
+            # executor selections deep inside the chain: exactly the documented closure runs (no traversal gives up half way)
+            mid = rng.randint(n // 3, n - 50)
+            for kw_, exp_ in (({"target_nodes": [ids[mid]]}, set(range(mid + 1))), ({"exclude_nodes": [ids[mid]]}, set(range(mid))),
+                              ({"target_nodes": [ids[n - 1]], "exclude_nodes": [ids[n - 2]]}, None)):
+                B.reset_log()
+                r_ = probes.run_op("executor", lambda kw_=kw_: sched.call_dag(d, dict(kind="executor", **kw_), [Sym("arg", k, "sel")]))
+                ent_ = Counter(e["node"] for e in B.snapshot() if e["kind"] == "FENTER")
+                col.counters["scale_selections_on_deep_chains"] += 1
+                if exp_ is None:
+                    if r_[0] != "exc" or not isinstance(r_[1], ValueError) or ent_:
+                        col.violation(pid, "large_dag_invalid_selection_did_not_raise_ValueError", dict(nodes=n, selection=kw_, outcome=repr(r_)[:200], entered=len(ent_)), rp)
+                elif r_[0] != "ok":
+                    col.violation(pid, "large_dag_selection_raised", dict(nodes=n, selection=kw_, exc=repr(r_[1])[:300]), rp)
+                elif {x for x, c_ in ent_.items() if c_ == 1} != {ids[i] for i in exp_} or any(c_ != 1 for c_ in ent_.values()):
+                    col.violation(pid, "large_dag_selection_executed_other_nodes_than_the_closure", dict(
+                        nodes=n, selection=kw_, entered=len(ent_), expected=len(exp_)), rp)
         if k == 0:
             col.sample(dict(shape=kind, nodes=n, max_concurrency=sp["mc"], is_async=sp["is_async"],
                             scheduler_iterations=max([e.get("steps", 0) for e in log if e["kind"] == "STEPS"] or [0])))
